@@ -45,7 +45,7 @@ BLOCKS = {
     'template-local-names-2': ("new_vector = 0.5*new_vector + G\norig_vector = new_vector + 1\nin_vec = LO + G\nLO = orig_vector(k-1)\nErr_Tolerance = 0.01\nMaxTime = 2\n"
                                "exogenous\nG = [1., 2., 3.]", 0.5, ['new_vector'], ['G']),
     # an exogenous variable stated as a scalar (the in-process solver broadcasts it over the horizon)
-    'scalar-exogenous': ("x = 0.5*x + G + S\nErr_Tolerance = 0.01\nMaxTime = 2\nexogenous\nG = [1., 2., 3.]\nS = 20.", 0.5, ['x'], ['G']),
+    'scalar-exogenous': ("x = 0.5*x + G + S + R\nErr_Tolerance = 0.01\nMaxTime = 2\nexogenous\nG = [1., 2., 3.]\nS = 20.\nR = 0.0123456789", 0.5, ['x'], ['G']),
     # the time step k used only as the source of a lag, next to a user-defined time axis
     'k-as-lag-source': ("t = LT + 1.0\nLT = t(k-1)\nx = 0.5*x + PK + G\nPK = k(k-1)\nErr_Tolerance = 0.01\nMaxTime = 2\nexogenous\nG = [1., 2., 3.]", 0.5, ['x'], ['G']),
     # a lag chain declared after other lagged variables
@@ -83,6 +83,18 @@ def load(fname):
     mod = importlib.util.module_from_spec(spec)
     spec.loader.exec_module(mod)
     return mod
+
+
+def stated_exogenous(parser, symbolic):
+    """The paths EquationSolver would use for the exogenous variables stated in the block (a scalar is broadcast)."""
+    import math
+    out = {}
+    for v, e in parser.Exogenous:
+        if v in symbolic:
+            continue
+        val = eval(e.strip(), {'__builtins__': {}}, dict(vars(math)))
+        out[v] = [float(val)] * 3 if isinstance(val, (int, float)) else [float(x) for x in val]
+    return out
 
 
 def case_run(item):
@@ -188,6 +200,10 @@ def case_run(item):
             for v, icv in parser.InitialConditions.items():
                 if v not in prev:
                     props.append(L(getattr(obj, v)[0]) == symx.rat(float(icv)))
+            # the exogenous paths the block states itself (not made symbolic here) are the module's paths, value for value
+            for v, want in stated_exogenous(parser, exo).items():
+                got = getattr(obj, v)
+                props.append(z3.BoolVal(len(got) >= 3 and all(float(got[k]) == want[k] for k in range(3))))
             r, m = D.holds(z3.And(props))
             if r == 'sat' and out['viol'] is None:
                 out['viol'] = {'why': 'an equation of the block (or a stated constant / initial condition at k=0) does not hold at the generated module`s values',
@@ -219,7 +235,7 @@ REPLAY = '''
 import sys, tempfile, shutil, warnings
 warnings.simplefilter('ignore')
 from fractions import Fraction as F
-from vf.props.c20 import BLOCKS, generate, load
+from vf.props.c20 import BLOCKS, generate, load, stated_exogenous
 from sfc_models.equation_parser import EquationParser
 name = %(name)r
 vals = {k: float(F(v)) for k, v in %(vals)r.items()}
@@ -256,6 +272,9 @@ try:
         try: cval = float(e)
         except ValueError: continue
         if v not in prev and getattr(obj, v)[0] != cval: print('constant', v, '=', e, 'but its k=0 value is', getattr(obj, v)[0]); bad = True
+    for v, want in stated_exogenous(parser, exo).items():
+        got = getattr(obj, v)
+        if len(got) < 3 or any(float(got[k]) != want[k] for k in range(3)): print('exogenous', v, 'stated as', want, 'but the module uses', got); bad = True
     for v, icv in parser.InitialConditions.items():
         if v not in prev and getattr(obj, v)[0] != float(icv): print('initial condition', v, '=', icv, 'but its k=0 value is', getattr(obj, v)[0]); bad = True
     sys.exit(1 if bad else 0)
